@@ -10,6 +10,7 @@ import (
 
 	. "verifharness/hlib"
 
+	"github.com/henrylee2cn/erpc/v6/socket"
 	"github.com/henrylee2cn/erpc/v6/xfer"
 	"github.com/henrylee2cn/erpc/v6/xfer/gzip"
 	"github.com/henrylee2cn/erpc/v6/xfer/md5"
@@ -96,12 +97,16 @@ func c12Setup() {
 	xfer.Reg(c12gz)
 }
 
-var c12mode = flag.String("mode", "pipe", "pipe|live|protos|seq")
+var c12mode = flag.String("mode", "pipe", "pipe|live|protos|seq|conc")
 
 func main() {
 	cfg := ParseFlags()
 	if *c12mode == "live" {
 		runC12Live(cfg)
+		return
+	}
+	if *c12mode == "conc" {
+		runC12Conc(cfg)
 		return
 	}
 	if *c12mode == "seq" {
@@ -193,7 +198,12 @@ func runC12(cfg *RunCfg) {
 			}
 			st.Count("limited-gzip")
 		}
-		xfer.SetSizeLimit(lim)
+		// through the public knob (socket.SetMessageSizeLimit keeps the filters' bound equal to the
+		// message size limit; 0 = back to the default), so that a bound that fails to follow it shows
+		socket.SetMessageSizeLimit(lim)
+		if lim == 0 && xfer.SizeLimit() != socket.MessageSizeLimit() {
+			st.Fail(i, "limit-not-followed", fmt.Sprintf("after SetMessageSizeLimit(0) the message size limit is %d but the filters' bound is %d", socket.MessageSizeLimit(), xfer.SizeLimit()), "SetMessageSizeLimit(small) ... SetMessageSizeLimit(0)")
+		}
 
 		pipe := xfer.NewXferPipe()
 		err := pipe.Append(ids...)
@@ -299,7 +309,7 @@ func runC12(cfg *RunCfg) {
 		for _, pr := range c12gz.tab {
 			gz = append(gz, VL(VB(pr[0]), VB(pr[1])))
 		}
-		xfer.SetSizeLimit(0)
+		socket.SetMessageSizeLimit(0)
 		w.Add(VL(VB(ids), VB(payload), VL(gz...), VL(corruptIn...), VN(int64(lim))),
 			VL(VN(int64(errCode)), VB(gotIDs), VOpt(packed, packedOK), VOpt(unpacked, unpackedOK), VL(corruptObs...)))
 		key := Hx(ids) + "/" + Hx(payload)
